@@ -87,6 +87,22 @@ def run(ctx):
             ctx.check("C18.Q", f"{name}:_messages[{key}]:{form}", ok,
                       f"_SocketHub.{name} uses the message queue under key {key} as `{form}`; FIFO delivery needs: send appends at the tail of the receiver's queue (remote_key), recv pops the head (pop(0)) of its own queue (key)",
                       repo.loc(m, q), sample={"function": name, "key": key, "form": form})
+    # dict-level operations on the queues (dropping or replacing a whole queue) lose messages
+    for name, fn in sorted(hub.methods.items()):
+        if name == "__init__":
+            continue
+        for n in ast.walk(fn):
+            bad = None
+            if isinstance(n, ast.Call) and isinstance(n.func, ast.Attribute) and A.is_self_attr(n.func.value, "_messages") and n.func.attr in ("pop", "clear", "popitem", "update", "setdefault"):
+                bad = src(n)
+            elif isinstance(n, ast.Delete) and any(isinstance(t, ast.Subscript) and A.is_self_attr(t.value, "_messages") for t in n.targets):
+                bad = src(n)
+            elif isinstance(n, ast.Assign) and any((isinstance(t, ast.Subscript) and A.is_self_attr(t.value, "_messages")) or A.is_self_attr(t, "_messages") for t in n.targets):
+                bad = src(n)
+            if bad is not None:
+                uses += 1
+                ctx.check("C18.Q", f"{name}:_messages:whole-queue-operation", False,
+                          f"_SocketHub.{name} does `{bad[:70]}`: removing or replacing a whole queue discards messages that were sent but not yet received (a peer may already have queued them)", repo.loc(m, n))
     ctx.anchor("C18.Q", "uses of the message queues", uses, 3)
     # ---- C18.K key mirror
     ts = repo.get_class(SOCK, "ThreadSocket")
@@ -236,6 +252,7 @@ SEEDS = [
     dict(id="c18-nonblock-sleep", file=H, expect="C18.E", construct="no-sleep", old="            if len(messages) == 0:\n                if not block:", new="            if len(messages) == 0:\n                sleep(self.__class__._RECV_SLEEP_TIME)\n                if not block:"),
     dict(id="c18-publish-first", file=H, expect="C18.I", construct="connect", old="        self._add_callbacks(socket)\n        self._open_sockets.add(socket.key)\n        self._remote_sockets.add(socket.key)\n", new="        self._open_sockets.add(socket.key)\n        self._remote_sockets.add(socket.key)\n        self._add_callbacks(socket)\n"),
     dict(id="c18-double-delivery", file=H, expect="C18.K", construct="at-most-one-delivery", old="                method(msg)\n        else:", new="                method(msg)\n                self._messages[socket.remote_key].append(msg)\n        else:"),
+    dict(id="c18-purge-on-connect", file=H, expect="C18.Q", construct="whole-queue", old="        self._remote_sockets.add(socket.key)\n", new="        self._remote_sockets.add(socket.key)\n        self._messages.pop(socket.key, None)\n"),
     dict(id="c18-stale", file=H, expect="C18.E", construct="returns-the-popped", old="                    msg = messages.pop(0)\n", new="                    msg = messages[-1]\n                    messages.pop(0)\n"),
 ]
 BENIGN = [
